@@ -84,6 +84,31 @@ fn run_generic(mode: Mode, args: &Args, prefix: &str, rule: &str) {
 			cx.oracle.check(r == Ok((4 + (1 << 26), vec![0xfe, 0xff, 0xff, 0x7f], true)), "encode-of-representable-count-fails", || format!("BitVec of 2^29-1 bits: {:?}", r));
 		}
 	}
+	if mode == Mode::C19 && args.only.is_none() {
+		// one read of 4 GiB through the counter (the count must not wrap at 2^32): the buffer is
+		// unreserved address space from the harness allocator and the input writes nothing into it
+		use parity_scale_codec::{CountedInput, Decode, Error, Input};
+		struct Zeros(u64);
+		impl Input for Zeros {
+			fn remaining_len(&mut self) -> Result<Option<usize>, Error> {
+				Ok(None)
+			}
+			fn read(&mut self, into: &mut [u8]) -> Result<(), Error> {
+				self.0 += into.len() as u64;
+				Ok(())
+			}
+		}
+		const N: usize = (1 << 32) + 5;
+		let mut z = Zeros(0);
+		let r = std::panic::catch_unwind(std::panic::AssertUnwindSafe(|| {
+			let mut c = CountedInput::new(&mut z);
+			let ok = <Box<[u8; N]>>::decode(&mut c).map(drop).is_ok();
+			(ok, c.count())
+		}))
+		.map_err(drop);
+		cx.stats.bump("count/4GiB-read");
+		cx.oracle.check(r == Ok((true, N as u64)) && z.0 == N as u64, "count!=delivered", || format!("Box<[u8; 2^32+5]> through CountedInput over a zero-producing input: {:?}, delivered {}", r, z.0));
+	}
 	if mode == Mode::C18 && args.only.is_none() {
 		gen::len_cases(&mut cx);
 	}
